@@ -42,6 +42,7 @@ func main() {
 	solvers := flag.String("solvers", "", "comma-separated back ends (z3,cvc5-int,z3-new,cvc5)")
 	tier := flag.String("tier", "quick", "quick or thorough (selects vBound values)")
 	trail := flag.String("trail", "", "replay: JSON file with a violation (trail + inputs) to re-execute concretely")
+	samples := flag.Int("samples", 8, "passing paths to keep per harness for native trace validation")
 	cpuprof := flag.String("cpuprofile", "", "write a CPU profile")
 	flag.Parse()
 	if g := os.Getenv("GOSYM_GOGC"); g != "" {
@@ -109,7 +110,7 @@ func main() {
 		}
 		c := interp.Config{
 			Harness: name, Workers: *workers, MaxPaths: *maxPaths, MaxSteps: *maxSteps, MaxDecisions: *maxDec,
-			MaxPreempt: *preempt, TimeLimit: *timeLimit, CrossCheck: *cross, StopAtFirst: *stopFirst, Trace: *trace, Tier: *tier,
+			MaxPreempt: *preempt, TimeLimit: *timeLimit, CrossCheck: *cross, StopAtFirst: *stopFirst, MaxSamples: *samples, Trace: *trace, Tier: *tier,
 		}
 		if *solvers != "" {
 			c.Solvers = strings.Split(*solvers, ",")
